@@ -453,6 +453,36 @@ def r8_edge_copies_rotated(idx, r):
     r.require(ang == want, "edge-copy:rotated-into-place", f, node=rot_calls[0], msg=f"the copy goes to the {nth}. image, i.e. the {120 * nth}-degree rotation of the cell, but is rotated by `{norm(rot_calls[0].args[0])}`")
 
 
+def r9_symmetry_cut_sites(idx, r):
+    """(a) HexBlock.getSymmetryFactor halves a block only when its assembly lies on one of the two lines that BOUND a third core (0 and 120
+    degrees) while edge assemblies are present; the bisector (60 degrees) lies inside the domain.  (b) a component's integrated multigroup
+    flux is cut by the parent's symmetry factor in BOTH its branches (block-level share and pin-level value), as Component.getMass is: full
+    core = 3 x third core for pin-level fluxes too.  (c) a parameter counts as 'at' a location when its location flags CONTAIN it (shared
+    with R11.2): compound locations such as TOP|CORNERS are rotated with the other corner data."""
+    f = idx.method("armi.reactor.blocks.HexBlock", "getSymmetryFactor")
+    rets = [x for x in walk_local(f.node) if isinstance(x, ast.Return) and norm(x.value) == "2.0"]
+    if len(rets) != 1:
+        raise AnchorMissing("HexBlock.getSymmetryFactor: return 2.0")
+    txt = " and ".join(norm(t) for t, p in path_conditions(f.node, rets[0]) if p)
+    ok = "BOUNDARY_0_DEGREES" in txt and "BOUNDARY_120_DEGREES" in txt and "BOUNDARY_60_DEGREES" not in txt and " in " in txt
+    r.require(ok, "getSymmetryFactor:only-the-two-bounding-lines", f, node=rets[0],
+              msg=f"a block is halved under `{txt[:160]}`: only the 0- and 120-degree lines bound the third core; an assembly on the 60-degree bisector is whole, or the third-core mass drops when "
+                  "edge assemblies are added and full core is no longer 3 x third core")
+    g = idx.method("armi.reactor.components.component.Component", "getIntegratedMgFlux")
+    n = 0
+    for x in walk_local(g.node):
+        if isinstance(x, ast.Return) and x.value is not None and "self.getVolume()" in norm(x.value):
+            n += 1
+            r.require("self.parent.getSymmetryFactor()" in norm(x.value) and any(isinstance(y, ast.BinOp) and isinstance(y.op, ast.Div) and norm(y.right) == "self.parent.getSymmetryFactor()" for y in ast.walk(x.value)),
+                      f"getIntegratedMgFlux:return{n}:cut-by-the-parent-symmetry-factor", g, node=x,
+                      msg=f"`{norm(x)[:80]}` integrates over the component's whole volume: in a symmetry-cut block (centre assembly, edge assemblies) the pin-level integrated flux is the factor too large")
+    env = single_assign_env(g.node)
+    vf = env.get("volumeFraction")
+    r.require(n >= 1 and vf is not None and "self.parent.getSymmetryFactor()" in norm(vf), "getIntegratedMgFlux:block-level-share-cut-too", g, msg="the block-level branch takes the symmetry-cut share of the block")
+    from .c11 import r2_classification
+    r2_classification(idx, r)
+
+
 def run(idx, chk):
     chk.explanation = (
         "C13: in ThirdCoreHexToFullCoreChanger.convert every symmetric location gets exactly one deep-copied, uniquely named, rotated and recorded "
@@ -478,3 +508,5 @@ def run(idx, chk):
                  necessary="volume-integrated totals triple on conversion whatever no-op operations preceded it")
     chk.run_rule("R13.8", "an edge-assembly copy is rotated by the angle of the image it is placed at", lambda r: r8_edge_copies_rotated(idx, r), floor=1,
                  necessary="every new assembly is its source rotated into place")
+    chk.run_rule("R13.9", "only the 0/120-degree lines halve a block; integrated flux cut by the symmetry factor in both branches; location flags tested by containment", lambda r: r9_symmetry_cut_sites(idx, r), floor=6,
+                 necessary="volume-integrated totals of the full core are three times those of the third core; every copy is its source rotated")
